@@ -214,28 +214,52 @@ impl AnimationAppExt for App {
     }
 }
 
-/// Verification hook: registers the same two systems as
-/// [register_animation_key](AnimationAppExt::register_animation_key), both before the animation
-/// system for `T`, but additionally fixes the relative order of the pair, which the regular
-/// registration leaves to the scheduler. Used to run both legal linearizations deterministically.
+/// Verification hook: names of the systems this crate adds to the `Update` schedule.
 #[cfg(feature = "verif-hooks")]
-pub fn verif_register_animation_key_ordered<T: Component, K: AnimationKey>(
+#[derive(Clone, Copy, Debug, Eq, PartialEq)]
+pub enum VerifSystem {
+    /// `chain_animations::<K, T>`
+    Chain,
+    /// `select_animation::<K, T>`
+    Select,
+    /// `animate::<T>`
+    Animate,
+    /// `animate::<T2>` (the animation system of a second animated component type)
+    AnimateOther,
+}
+
+/// Verification hook: pins the relative order of systems that were already registered through the
+/// regular [AnimationPlugin] and [register_animation_key](AnimationAppExt::register_animation_key).
+///
+/// The regular registration leaves several pairs unordered (chain/select, and everything across
+/// component types), and Bevy then picks an order that can differ from process to process. This
+/// adds one no-op marker system between every two consecutive entries of `order`
+/// (`marker.after(order[i]).before(order[i + 1])`), so that a simulator can run each legal
+/// linearization deterministically. It registers none of the real systems itself.
+#[cfg(feature = "verif-hooks")]
+pub fn verif_pin_system_order<T: Component, K: AnimationKey, T2: Component>(
     app: &mut App,
-    select_first: bool,
-) -> &mut App {
-    if select_first {
-        app.add_systems(
-            Update,
-            (select_animation::<K, T>, chain_animations::<K, T>)
-                .chain()
-                .before(animate::<T>),
-        )
-    } else {
-        app.add_systems(
-            Update,
-            (chain_animations::<K, T>, select_animation::<K, T>)
-                .chain()
-                .before(animate::<T>),
-        )
+    order: &[VerifSystem],
+) {
+    fn verif_order_marker() {}
+    // `.after()` / `.before()` need concrete system types, hence the two-level dispatch.
+    macro_rules! before_second {
+        ($config:expr, $second:expr) => {
+            match $second {
+                VerifSystem::Chain => $config.before(chain_animations::<K, T>),
+                VerifSystem::Select => $config.before(select_animation::<K, T>),
+                VerifSystem::Animate => $config.before(animate::<T>),
+                VerifSystem::AnimateOther => $config.before(animate::<T2>),
+            }
+        };
+    }
+    for pair in order.windows(2) {
+        let config = match pair[0] {
+            VerifSystem::Chain => before_second!(verif_order_marker.after(chain_animations::<K, T>), pair[1]),
+            VerifSystem::Select => before_second!(verif_order_marker.after(select_animation::<K, T>), pair[1]),
+            VerifSystem::Animate => before_second!(verif_order_marker.after(animate::<T>), pair[1]),
+            VerifSystem::AnimateOther => before_second!(verif_order_marker.after(animate::<T2>), pair[1]),
+        };
+        app.add_systems(Update, config);
     }
 }
